@@ -16,6 +16,18 @@ section).  A store mutation landing between a `Load`'s reads and its table write
 concurrent model (`cstep`: `begin…` reads the stores, `commit` writes the table, mutations in
 between) and `C09.converges_concurrent`. Two *loads* overlapping – possible on the pinned code,
 where they could publish a stale spec – is excluded by `loadMu` (see known_findings.txt).
+
+Event delivery assumed by the model: the spec stream and the value stream are *reliable FIFO
+queues* (`St.specEv`, `St.valEv`): every event emitted for a document of the runtime's namespace
+while watching is delivered to its consumer exactly once, in emission order. That is what C13
+(`C13.events_exact`, about pkg/store/stream.go and `store.emit`) establishes for the real streams;
+`C09.converges`, `C09.converges_eventually` and `C09.converges_concurrent` take it as given. The
+dependence is made explicit at the end of this file: over a stream that may drop an event equal
+to the one its consumer is still handling (`lstep`), the same histories without drops converge
+(`C09.reliable_queue_converges`), and one dropped event breaks convergence for good
+(`C09.lossy_queue_breaks_convergence`, `C09.lossy_value_queue_breaks_convergence`). On the real
+code the harness forces exactly that history (the same document updated again while the
+reconciler's Load for the previous update is parked).
 -/
 import Uniflow.Proofs.Runtime
 import Uniflow.Proofs.RuntimeConc
@@ -315,4 +327,82 @@ theorem C09.converges_concurrent_nonvacuous :
     (crun { st := load st0 .all } h).st.specEv = [] ∧ (crun { st := load st0 .all } h).st.valEv = [] ∧
     lookup (crun { st := load st0 .all } h).st.table 1 = some ⟨{ s1 with ver := 2 }, some [⟨5, 10, some 7, 5⟩]⟩ := by
   refine ⟨by decide, tabNs_run _ _ (tabNs_init 1), ?_⟩
+  decide
+
+/-! ### event delivery: what convergence relies on -/
+
+/-- **With reliable streams the lossy model is the concurrent model and converges.** A history of
+the lossy model in which the pumps never exercise their option to drop is a history of the
+concurrent model, hence (by `C09.converges_concurrent`) at quiescence the table is the target. -/
+theorem C09.reliable_queue_converges (st0 : St) (h : List LOp) (hw : st0.watching = true) (hns : TabNs st0)
+    (hrel : ∀ o ∈ h, o.drop = false)
+    (hfl : (lrun { c := { st := load st0 .all } } h).c.fl = none)
+    (hq1 : (lrun { c := { st := load st0 .all } } h).c.st.specEv = [])
+    (hq2 : (lrun { c := { st := load st0 .all } } h).c.st.valEv = []) (i : Nat) :
+    lookup (lrun { c := { st := load st0 .all } } h).c.st.table i =
+      (lrun { c := { st := load st0 .all } } h).c.st.target i := by
+  rw [lrun_reliable _ h hrel] at hfl hq1 hq2 ⊢
+  exact C09.converges_concurrent st0 (h.map (·.op)) hw hns hfl hq1 hq2 i
+
+/-- **A stream that may drop an event equal to the previously delivered one breaks convergence.**
+Concrete history: spec 1 is updated (version 2), the spec consumer takes the event and its Load
+reads the store; spec 1 is updated again (version 3) – the event `{update, 1}` equals the one the
+consumer is still handling, nothing else is queued, the pump drops it; the Load commits version 2.
+No load in flight, both queues empty – and the table holds version 2 while the store holds
+version 3, for good. Every drop in the history is of the permitted kind (an update event equal to
+the last delivered one, consumer busy, queue empty – `lstep` ignores `drop` otherwise). -/
+theorem C09.lossy_queue_breaks_convergence :
+    ∃ (st0 : St) (h : List LOp),
+      st0.watching = true ∧ TabNs st0 ∧
+      (∀ o ∈ h, o.drop = true → ∃ m, o.op = .store m ∧ opKind m = 1) ∧
+      let l := lrun { c := { st := load st0 .all } } h
+      l.c.fl = none ∧ l.c.st.specEv = [] ∧ l.c.st.valEv = [] ∧
+      ∃ i, lookup l.c.st.table i ≠ l.c.st.target i := by
+  refine ⟨run { ns := 1 } [.insSpec s1, .insVal v10, .watch],
+    [⟨.store (.updSpec { s1 with ver := 2 }), false⟩, ⟨.beginSpec, false⟩,
+     ⟨.store (.updSpec { s1 with ver := 3 }), true⟩, ⟨.commit, false⟩],
+    by decide, tabNs_run _ _ (tabNs_init 1), ?_, ?_⟩
+  · intro o ho hd
+    simp only [List.mem_cons, List.not_mem_nil, or_false] at ho
+    rcases ho with rfl | rfl | rfl | rfl
+    · cases hd
+    · cases hd
+    · exact ⟨_, rfl, rfl⟩
+    · cases hd
+  · refine ⟨by decide, by decide, by decide, 1, by decide⟩
+
+/-- The same on the value stream: value 10, to which spec 1 is bound, is updated twice; the second
+`{update, 10}` is dropped while the value consumer is inside the reload for the first; the symbol
+stays bound to the first update's data. -/
+theorem C09.lossy_value_queue_breaks_convergence :
+    ∃ (st0 : St) (h : List LOp),
+      st0.watching = true ∧ TabNs st0 ∧
+      (∀ o ∈ h, o.drop = true → ∃ m, o.op = .store m ∧ opKind m = 1) ∧
+      let l := lrun { c := { st := load st0 .all } } h
+      l.c.fl = none ∧ l.c.st.specEv = [] ∧ l.c.st.valEv = [] ∧
+      lookup l.c.st.table 1 = some ⟨s1, some [⟨5, 10, some 7, 5⟩]⟩ ∧
+      l.c.st.target 1 = some ⟨s1, some [⟨5, 10, some 7, 6⟩]⟩ := by
+  refine ⟨run { ns := 1 } [.insSpec s1, .insVal v10, .watch],
+    [⟨.store (.updVal { v10 with ver := 5 }), false⟩, ⟨.beginVal, false⟩,
+     ⟨.store (.updVal { v10 with ver := 6 }), true⟩, ⟨.commit, false⟩],
+    by decide, tabNs_run _ _ (tabNs_init 1), ?_, ?_⟩
+  · intro o ho hd
+    simp only [List.mem_cons, List.not_mem_nil, or_false] at ho
+    rcases ho with rfl | rfl | rfl | rfl
+    · cases hd
+    · cases hd
+    · exact ⟨_, rfl, rfl⟩
+    · cases hd
+  · decide
+
+/-- The drop in the counterexample is a real choice: the same history with the pump delivering
+the second event converges (to version 3). -/
+theorem C09.lossy_queue_counterexample_needs_the_drop :
+    let st0 : St := run { ns := 1 } [.insSpec s1, .insVal v10, .watch]
+    let h : List LOp := [⟨.store (.updSpec { s1 with ver := 2 }), false⟩, ⟨.beginSpec, false⟩,
+      ⟨.store (.updSpec { s1 with ver := 3 }), false⟩, ⟨.commit, false⟩, ⟨.beginSpec, false⟩, ⟨.commit, false⟩]
+    let l := lrun { c := { st := load st0 .all } } h
+    l.c.fl = none ∧ l.c.st.specEv = [] ∧ l.c.st.valEv = [] ∧
+    lookup l.c.st.table 1 = some ⟨{ s1 with ver := 3 }, some [⟨5, 10, some 7, 4⟩]⟩ ∧
+    lookup l.c.st.table 1 = l.c.st.target 1 := by
   decide
